@@ -8,6 +8,10 @@
 (*   - on EVERY base of every asymmetric private key type, in both tiers: the public  *)
 (*     part (then the private part) replaced by that of another valid key of the      *)
 (*     same configuration (KTParts) - halves that are each valid but do not match;    *)
+(*   - on EVERY base, both tiers: every boundary value of every field the minimum-   *)
+(*     strength table talks about (key / tag sizes, hash, curve, RSA exponent): a      *)
+(*     below-minimum DECLARATION over otherwise untouched material; together with the   *)
+(*     bases GENERATED below the minimum (KTBases) both kinds of weak key are there;    *)
 (*   - thorough: every pair of edits of two different size-like fields.             *)
 (* The driver builds the key, applies the edits, wraps it in a one-key keyset and    *)
 (* loads it; an accepted handle is projected, a primitive is created through the     *)
@@ -31,10 +35,13 @@ Case(t, b, p, es) == [type |-> t, base |-> b, prefix |-> p, edits |-> es]
 Cases0 == UNION {{Case(t, b, p, <<>>) : b \in RangeOf(KTBases(t)), p \in PrefixNames} : t \in KTTypes}
 Cases1 == UNION {UNION {{Case(t, b, KTPrefix(t), <<e>>) : e \in SingleEdits(t, b)} : b \in EditBases(t)} : t \in KTTypes}
 Cases2 == UNION {UNION {{Case(t, b, KTPrefix(t), es) : es \in PairEdits(t, b)} : b \in {KTBases(t)[1]}} : t \in KTTypes}
+\* minimum-strength fields: every boundary value on every base
+StrengthEdits(t, b) == UNION {FieldEdits(f) : f \in {g \in KTFields(t) : Applies(g, b) /\ g[2] \in StrengthClasses}}
+CasesStrength == UNION {UNION {{Case(t, b, KTPrefix(t), <<e>>) : e \in StrengthEdits(t, b)} : b \in RangeOf(KTBases(t))} : t \in KTTypes}
 Swap(paths) == LET ps == SetToSeq(paths) IN [i \in DOMAIN ps |-> [path |-> ps[i], op |-> "sibling", v |-> 0]]
 CasesMismatch == UNION {UNION {{Case(t, b, KTPrefix(t), Swap(ps)) : ps \in KTParts(t, b).pub \cup KTParts(t, b).priv}
                                : b \in RangeOf(KTBases(t))} : t \in KTPrivateTypes}
-Cases ==  Cases0 \cup Cases1 \cup CasesMismatch \cup (IF Thorough THEN Cases2 ELSE {})
+Cases ==  Cases0 \cup Cases1 \cup CasesMismatch \cup CasesStrength \cup (IF Thorough THEN Cases2 ELSE {})
 
 VARIABLE done
 Init == done = LET cs == SetToSeq(Cases) IN
